@@ -257,6 +257,25 @@ def generate(rng, seed, size):
             cases.append('    Case { name: "%s_%s", n: %d, desc: "%s", make: || mk::<%s>(%s()) },\n'
                          % (e["name"], tag, e["n"], desc.replace('"', '\\"'), ty, fn))
         out.append("\n")
+    # the same enum and variant names once more in a nested module, disabled flags flipped, unit variants only
+    if True:
+        out.append("pub mod dup {\n    use super::*;\n")
+        for e in [e for e in enums if e["generics"] == "none" and 2 <= len(e["variants"]) <= 10][:4]:
+            flags = [not v["disabled"] for v in e["variants"]]
+            if all(flags):
+                flags[0] = False
+            out.append("    #[derive(EnumIter, Debug, PartialEq)]\n    pub enum %s {\n" % e["name"])
+            for v, d in zip(e["variants"], flags):
+                if d:
+                    out.append("        #[strum(disabled)]\n")
+                out.append("        %s,\n" % v["ident"])
+            out.append("    }\n")
+            en = [v["ident"] for v, d in zip(e["variants"], flags) if not d]
+            out.append("    pub fn exp_%s_dup() -> Vec<%s> {\n        vec![%s]\n    }\n"
+                       % (e["name"].lower(), e["name"], ", ".join("%s::%s" % (e["name"], x) for x in en)))
+            cases.append('    Case { name: "%s_dup", n: %d, desc: "enum dup::%s (same names as %s, disabled flags flipped, unit variants)", make: || mk::<dup::%s>(dup::exp_%s_dup()) },\n'
+                         % (e["name"], len(en), e["name"], e["name"], e["name"], e["name"].lower()))
+        out.append("}\n\n")
     out.append("pub static CASES: &[Case] = &[\n")
     out.extend(cases)
     out.append("];\n")
